@@ -45,6 +45,7 @@ pub fn scenarios(prop: &str, tier: Tier) -> Vec<ScenarioDef> {
         "C02" => crate::c01::scenarios("C02", tier),
         "C03" => crate::c03::scenarios(tier),
         "C04" => crate::c04::scenarios(tier),
+        "C07" => crate::c07::scenarios(tier),
         "C18" => crate::c18::scenarios(tier),
         _ => Vec::new(),
     }
